@@ -472,6 +472,22 @@ fn do_op(
                 _ => "l",
             });
             match held_remove(want) {
+                Some(h) if step["unw"].as_bool().unwrap_or(false) => {
+                    // the guard / span / collector is released by a panic unwinding through its owner (and the
+                    // panic is caught further out, as a thread pool or an async runtime does): the local context
+                    // must be restored all the same (C10, C15)
+                    struct InUnwind(Option<Held>);
+                    impl Drop for InUnwind {
+                        fn drop(&mut self) {
+                            drop(self.0.take());
+                        }
+                    }
+                    let _ = catch_unwind(AssertUnwindSafe(move || {
+                        let _owner = InUnwind(Some(h));
+                        std::panic::resume_unwind(Box::new("unwinding through a scope"));
+                    }));
+                    out.insert("unwound".into(), json!(true));
+                }
                 Some(h) => drop(h),
                 None => {
                     out.insert("harness".into(), json!("ill-nested"));
